@@ -144,6 +144,23 @@ Section Moved.
     rewrite bank_execute_char by (try exact Hft; apply (wf_bal s W)). reflexivity.
   Qed.
 
+  Lemma m_i71 : forall a v, in71 s' a v =
+    sel from to a (has_del s from v || in71 s to v) (negb (has_del s from v) && in71 s from v) (in71 s a v).
+  Proof.
+    intros a v. unfold in71 at 1. unfold s'. rewrite s1_closed.
+    cbn [stake set_record set_mig set_stake stake_after idx71].
+    rewrite idx71_fold_is. unfold k2_eqb. rewrite (idx_fold_has Z.eqb Zeqb_ok from to Hft).
+    unfold Ld. fold k2_eqb. rewrite (vals_of_from2 d_val from v (dels (stake s))).
+    2:{ intros kv I. rewrite (wf_delk s W kv I). reflexivity. }
+    reflexivity.
+  Qed.
+
+  Lemma p_unbidx : unbidx (stake s') = fold_left wstep (unb_writes from to s) (unbidx (stake s)).
+  Proof.
+    unfold s'. rewrite s1_closed. cbn [stake set_record set_mig set_stake stake_after unbidx].
+    rewrite unb_r_fold_is, unb_u_fold_is, <- fold_left_app. reflexivity.
+  Qed.
+
   Lemma m_i33 : forall a v, in33 s' a v =
     sel from to a (has_ubd s from v || in33 s to v) (negb (has_ubd s from v) && in33 s from v) (in33 s a v).
   Proof.
@@ -234,9 +251,9 @@ Section Moved.
   Proof.
     constructor.
     - exact m_bal. - exact m_del. - exact m_start. - exact m_ubd. - exact m_red.
-    - exact m_i33. - exact m_i35. - exact m_i36.
-    - unfold s'. rewrite s1_closed. reflexivity.
-    - unfold s'. rewrite s1_closed. reflexivity.
+    - exact m_i71. - exact m_i33. - exact m_i35. - exact m_i36.
+    - intros id k H. rewrite p_unbidx in H. apply wfold_inv in H. exact H.
+    - intros id I. rewrite p_unbidx. apply wfold_has. exact I.
     - exact m_ubdq. - exact m_redq.
     - unfold s'. rewrite s1_closed. reflexivity.
     - unfold s'. rewrite s1_closed. reflexivity.
